@@ -209,10 +209,34 @@ class Interp:
         f = np.frompyfunc(lambda xe, be: self.ite(be, xe, zero), 2, 1)
         return Arr(x.st, wrap(f(x.a, b.a)))
 
+    div_lemma = False
+
+    def div_const(self, e, d, w, signed):
+        """quotient of e by the constant d (signed: round toward zero) introduced as a fresh
+        variable defined by the division lemma e = q*d + r, |r| < d, sign(r) = sign(e):
+        equivalent to bvsdiv/bvudiv (the solution is unique) but only multiplies by a constant"""
+        self.n_fresh += 1
+        q = z3.BitVec("%sdivq%d" % (self.tag, self.n_fresh), w)
+        r = z3.BitVec("%sdivr%d" % (self.tag, self.n_fresh), w)
+        ext = d.bit_length() + 1
+        dd = z3.BitVecVal(d, w + ext)
+        if signed:
+            E, Q, R = z3.SignExt(ext, e), z3.SignExt(ext, q), z3.SignExt(ext, r)
+            self.assumptions.append(E == Q * dd + R)
+            self.assumptions.append(z3.If(e >= 0, z3.And(r >= 0, R < dd), z3.And(r <= 0, R > -dd)))
+        else:
+            E, Q, R = z3.ZeroExt(ext, e), z3.ZeroExt(ext, q), z3.ZeroExt(ext, r)
+            self.assumptions.append(E == Q * dd + R)
+            self.assumptions.append(z3.ULT(R, dd))
+        return q
+
     def truncate(self, x, scale):
         w = x.w
         signed = st_signed(x.st)
         scale = int(scale)
+        if self.sym and self.div_lemma and scale & (scale - 1) and scale < (1 << (w - 1)):
+            f = np.frompyfunc(lambda e: self.div_const(e, scale, w, signed), 1, 1)
+            return Arr(x.st, wrap(f(x.a)))
 
         def one(e):
             if not self.sym:
